@@ -91,6 +91,30 @@ func genLargeProject(seed int64) (*proj.Project, int, int) {
 				p.ExtraNew[path] = fmt.Sprintf("package %s\n\ntype Unfmt struct {\n\tA int\n\tLongFieldName   string // new\n\tB []int\n}\n\nconst   UnfmtK = 3\n", pk.Name)
 			}
 		}
+		// a nested Go module with changed files in a directory and in descendants of it (the
+		// nested-module cache is filled from the workers), and changed files that share a stem
+		// (f.go / f.gen.go / f.pb.go) in one directory (whatever a worker derives from the name
+		// must not collide)
+		dec := func(pkg, fn string, k int) string {
+			return fmt.Sprintf("package %s\n\nfunc %s(a int) int {\n\ta++\n\ta += %d\n\treturn a\n}\n", pkg, fn, k)
+		}
+		p.ExtraOld["tools/gen/go.mod"] = "module example.com/gen\n\ngo 1.23\n"
+		p.ExtraNew["tools/gen/go.mod"] = p.ExtraOld["tools/gen/go.mod"]
+		for d := 0; d < 4; d++ {
+			for _, sub := range []string{"", "/sub", "/sub/deep"} {
+				path := fmt.Sprintf("tools/gen/d%02d%s/a.go", d, sub)
+				p.ExtraOld[path], p.ExtraNew[path] = dec("a", "A", 1), dec("a", "A", 2)
+			}
+		}
+		for _, pk := range p.Pkgs {
+			if !pk.IsMain && r.Intn(3) == 0 {
+				for _, suf := range []string{".gen.go", ".pb.go"} {
+					path := filepath.Join(pk.Dir, "f0"+suf)
+					fn := "Stem" + strings.ToUpper(suf[1:2]) + suf[2:strings.LastIndex(suf, ".")]
+					p.ExtraOld[path], p.ExtraNew[path] = dec(pk.Name, fn, 1), dec(pk.Name, fn, 2)
+				}
+			}
+		}
 		o, n := p.Files(true), p.Files(false)
 		ch := 0
 		for path, v := range n {
@@ -396,6 +420,13 @@ func (c *e2eCtx) prepareThrUnit(u *thrUnit, r *rand.Rand, prec int) error {
 	cfg.Granularity = pick(r, []string{"line", "patch", "scope", "func"})
 	cfg.Race = r.Intn(2) == 0
 	cfg.DataType = pick(r, []string{"bool", "count"})
+	cfg.SkipNested = r.Intn(4) != 0
+	switch r.Intn(4) { // printer settings other than the defaults
+	case 1:
+		cfg.PrinterModes, cfg.Tabwidth, cfg.Indent = []string{"tabIndent"}, 8, 1
+	case 2:
+		cfg.PrinterModes, cfg.Tabwidth, cfg.Indent = []string{"useSpaces"}, 4, 2
+	}
 	u.cfg = cfg
 	return nil
 }
